@@ -64,6 +64,12 @@ def missing_objects(o, out):
     return out
 
 
+class _Slotted:
+    """layout-compatible with Missing: what `MISSING.__class__ = ...` would accept if nothing forbade it"""
+
+    __slots__ = ()
+
+
 class ClaimsClass:
     """not MISSING, yet `isinstance(x, Missing)` says True: __class__ is an ordinary attribute lookup"""
 
@@ -115,12 +121,19 @@ class MissingDriver:
                               "falsy"))
         if name == "Inspect":
             rejected = True
-            for f in (lambda: MISSING.anything, lambda: setattr(MISSING, "a", 1), lambda: delattr(MISSING, "a")):
+            real = type(MISSING)
+            for f in (lambda: MISSING.anything, lambda: setattr(MISSING, "a", 1), lambda: delattr(MISSING, "a"),
+                      # the special names through which the one object could be turned into something else
+                      lambda: setattr(MISSING, "__class__", _Slotted), lambda: setattr(MISSING, "__dict__", {}),
+                      lambda: delattr(MISSING, "__class__"), lambda: setattr(MISSING, "__slots__", ("a",))):
                 try:
                     f()
                     rejected = False
                 except Exception:  # noqa: BLE001  - rejected, whatever the exception type
                     pass
+                finally:
+                    if type(MISSING) is not real:       # undo, so that the rest of the run sees the real thing
+                        object.__setattr__(MISSING, "__class__", real)
             return dict(BASE, k="inspect", eq=(bool(MISSING == MISSING), not bool(MISSING != MISSING)),
                         pred=("none", "none", "falsy" if not MISSING else "truthy"),
                         attrs="rejected" if rejected else "allowed")
